@@ -1796,3 +1796,30 @@ pub fn hzd_write(width: usize, v: u64) -> alloc::vec::Vec<u8> {
 		_ => HighZeroBytesDroppedBigSize(v).encode(),
 	}
 }
+
+/// Trace of `OnchainTxHandler::update_claims_view_from_matched_txn` calls on this thread (package
+/// layer differential, C06/C07): per call one `pre <conf> <cur> <pending> <claimable> <events>
+/// <locked> <txs>` line, one `mid <pending> <claimable> <events> <locked> <bump candidates>` line
+/// (state after the matching / maturity / timer loops, before the bump loop), one `issued <id8>
+/// <new timer>` line per bump candidate `generate_claim` answered, and `end`. Read-only.
+pub mod pkgtrace {
+	use alloc::string::String;
+	use alloc::vec::Vec;
+	std::thread_local! {
+		static TRACE: core::cell::RefCell<Vec<String>> = core::cell::RefCell::new(Vec::new());
+		static ON: core::cell::Cell<bool> = core::cell::Cell::new(false);
+	}
+	/// Switch recording on / off for this thread (off by default).
+	pub fn enable(on: bool) {
+		ON.with(|c| c.set(on));
+	}
+	pub(crate) fn push(line: String) {
+		if ON.with(|c| c.get()) {
+			TRACE.with(|t| t.borrow_mut().push(line));
+		}
+	}
+	/// Take everything recorded so far on this thread.
+	pub fn drain() -> Vec<String> {
+		TRACE.with(|t| t.borrow_mut().drain(..).collect())
+	}
+}
